@@ -190,17 +190,20 @@ def eolResolveStrict (s : RL) (k : RL → Step RL RLDone) : Step RL RLDone :=
     else k s
   | _, _ => k s
 
+/-- after URI end / version start are resolved: "if (NULL != c->rq.version)" … else the
+    request line is malformed -/
+def eolFinish (chr : UInt8) (s' : RL) : Step RL RLDone :=
+  match s'.version with
+  | some v =>
+    match s'.tgt with
+    | some t => finishLine s' chr t v
+    | none => .fault (.null 26)
+  | none => s'.errReply .malformed
+
 /-- "Handle the end of the request line" -/
 def handleEol (F : RLFlags) (s : RL) (chr : UInt8) : Step RL RLDone :=
   if s.hasMethod then
-    let k : RL → Step RL RLDone := fun s' =>
-      match s'.version with
-      | some v =>
-        match s'.tgt with
-        | some t => finishLine s' chr t v
-        | none => .fault (.null 26)
-      | none => s'.errReply .malformed
-    if F.wspInUri then eolResolveWspInUri s k else eolResolveStrict s k
+    if F.wspInUri then eolResolveWspInUri s (eolFinish chr) else eolResolveStrict s (eolFinish chr)
   else s.errReply .malformed
 
 /-! ### an ordinary character -/
